@@ -160,8 +160,24 @@ def run_job(args):
             # condition (each later model must differ from the earlier ones in some hole)
             res["degraded"].append(state["degraded"])
             blocks = []
-            for _k in range(int(opts.get("degraded_models", 4))):
-                if e.check(*blocks) != z3.sat:
+            # boundary models first: every hole at its smallest / largest admissible value
+            bounds = []
+            for pick in (0, 1):
+                cs = []
+                for name in cx.order:
+                    kind, t, meta = cx.decl[name]
+                    if kind == "int" and meta:
+                        cs.append(t == meta[pick])
+                    elif kind == "char" and meta:
+                        cs.append(t == (meta[0] if pick == 0 else meta[-1]))
+                if cs:
+                    bounds.append(cs)
+            tries = [b for b in bounds] + [None] * int(opts.get("degraded_models", 4))
+            for forced in tries:
+                if forced is not None:
+                    if e.check(*forced) != z3.sat:
+                        continue
+                elif e.check(*blocks) != z3.sat:
                     break
                 m = e.solver.model()
                 v = confirm(cx, "*", m, degraded=True)
